@@ -220,6 +220,40 @@ CHECKS["C16"] = (
     "DESIGN.md section 3, C16",
 )
 
+CHECKS["C06"] = (
+    "exploration",
+    "bounded-exhaustive namespace universe x target configuration with compilers / interpreter as oracle, failures bisected to the input feature",
+    "Every case of a bounded DSDL universe (every C/C++/Python reserved word and pattern witness and standard macro as attribute (8 field kinds), "
+    "type and namespace name; services, deprecated, empty and wide types, extreme constants, hostile doc comments, cross-root shapes) is "
+    "generated for C, C++14/17/20/17-pmr (cetl: generate only) and Python, with serialization support enabled and omitted; every generated "
+    "header is compiled alone under the project's strict flags (C also inside a C++ TU; thorough adds clang 14), every Python module is "
+    "compiled and imported in a fresh interpreter with -W error, and every include/import must name a generated file.",
+    "PyDSDL 1.25, gcc 12, clang 14, CPython 3.12 trusted; -fsyntax-only diagnostics only; five recorded finding classes in known_findings.json "
+    "(matched on kind/feature/origin, so a new failing name inside a listed class is masked); quick = core + 1/16 slice.",
+    "DESIGN.md section 3, C06",
+)
+CHECKS["C07"] = (
+    "model_checking",
+    "permuting-set schedule exploration (deviation-bounded) + ambient-tuple product on the real generator",
+    "Every iteration of a hash-ordered nunavut collection is a scheduler-controlled choice point (the name 'set' is bound to a permuting set "
+    "in all nunavut modules): all schedules with <=1 deviation (thorough: a restricted second deviation) are run and crossed with the full "
+    "product clock x cwd x path spelling x absolute location, plus 4 hash-seed interpreters through the CLI, over 70 configurations "
+    "(5 namespaces x 7 targets x serialization on/off); output trees are compared byte for byte with the neighbour differing in one dimension.",
+    "5 hand-written namespaces; PyDSDL's own sets only covered by the hash-seed runs; 3 non-interceptable set literals (argued harmless); "
+    "two-deviation level restricted and sets >4 capped (reported as caps, never marked exhaustive); two recorded findings (pickled Python model).",
+    "DESIGN.md section 3, C07",
+)
+CHECKS["C10"] = (
+    "model_checking",
+    "explicit-state search over generator-invocation histories (fork() as snapshot) against fresh-process references",
+    "Histories of <=2 (thorough <=3) real generator invocations in one interpreter, enumerated over every dependency-closed subset x every "
+    "permutation of the type list x nested-namespace iteration schedules x {c, cpp, py} x built-in / user templates x 3 post-processor lists "
+    "x optional LanguageContext reuse; every type file of the last event must equal the bytes generated for {t} + deps(t) in a fresh process.",
+    "Depth >=2 uses reduced alphabets (caps reported); only DSDLCodeGenerator is modelled; clock frozen; a fork of an import-only interpreter "
+    "stands for a fresh process (self-checked); one recorded finding (pickled Python model content).",
+    "DESIGN.md section 3, C10",
+)
+
 ALL = [f"C{i:02d}" for i in range(1, 21)]
 
 
@@ -264,7 +298,7 @@ def main() -> None:
         "checks": checks,
         "notes": "Known findings and fixed defects: known_findings.json. Design and mutation results: DESIGN.md.",
         "not_applicable": [
-            {"property_id": pid, "reason": "check not built yet in this session (planned, see DESIGN.md section 6)"}
+            {"property_id": pid, "reason": "no check registered"}
             for pid in ALL
             if pid not in CHECKS
         ],
